@@ -106,6 +106,8 @@ def gen_world(seed, tier):
     a["solver_options"]["threads"] = rng.choice([1, 2, 3, 4, 8])
     if w["class"] == "MinFlowDecomp":
         w["knobs"] = {"subgraph_lowerbound_size": rng.choice([2, 3, 4, 5]), "subgraph_lowerbound_shift": rng.choice([1, 2])}
+        if cov_keys and a.get("subpath_constraints"):
+            w["knobs"]["subgraph_lowerbound_size"] = 2 + w["knobs"]["subgraph_lowerbound_size"] % 2      # narrow windows cut constraints
     return w
 
 
@@ -122,6 +124,11 @@ def plans(world, info, seed, tier):
                 flags.pop("optimize_with_subpath_constraints_as_safe_sequences", None)
             else:
                 flags["optimize_with_safe_sequences"] = True
+        rs = random.Random(H(seed, "c05plans-scan", len(specs)))
+        if world["class"] == "MinFlowDecomp" and a_.get("subpath_constraints") and any(
+                k_.endswith("_coverage") or k_.endswith("_coverage_length") for k_ in a_) and rs.random() < 0.6:
+            # partially coverable constraints and the window-wise lower bound (windows lowered to 2-5 nodes by the knobs)
+            flags["use_subgraph_scanning_lowerbound"] = True
         sim = {"latency": "instant", "reply": "canonical", "reply_seed": rng.randrange(1 << 30), "faults": []}
         if rng.random() < 0.5:
             sim["faults"] = [{"at": rng.randrange(0, 3), "kind": rng.choice(["interrupt", "time_limit_no_incumbent", "time_limit_with_incumbent", "unknown"])}]
